@@ -17,13 +17,22 @@ VERIF = os.path.dirname(os.path.dirname(os.path.abspath(__file__)))
 
 
 def use_repo():
-    """Put the repository under test in front of sys.path (working tree, no build step: pure Python)."""
+    """Put the repository under test in front of sys.path (working tree, no build step: pure Python) and install
+    the simulator's seams *before* graphtage is imported, so that the process-wide DEFAULT_PRINTER graphtage creates
+    at import time is bound to the simulated stdout exactly as it would be bound to the real one."""
     if sys.path[0] != REPO:
         try:
             sys.path.remove(REPO)
         except ValueError:
             pass
         sys.path.insert(0, REPO)
+    from .seams import SEAMS
+    SEAMS.install()
+
+
+def out(*a):
+    """Harness output: always the real stdout, never a simulated stream."""
+    print(*a, file=sys.__stdout__, flush=True)
 
 
 def h64(*parts) -> int:
